@@ -28,10 +28,10 @@ CHECKS = {
          "Coq proof + correspondence"),
  "C15": ("Timer theorems over integer ticks (poll spacing, ping periods, unresponsive, close timeout); the real loop on a virtual clock over the full parameter grid, time-stamped traces compared with the model and judged against the bounds.",
          "Coq proof over Z ticks + virtual-clock correspondence"),
- "C06": ("Bookkeeping theorems on the model with zlib as an oracle (which context sees which bytes in which order, resets, RSV1 placement, parameter parsing); an independent RFC 7692 peer built on plain zlib objects against the real client for all 256 parameter combinations. Partial: DEFLATE itself is not verified.",
+ "C06": ("Bookkeeping theorems on the model with zlib as an oracle (which context sees which bytes in which order on the sending and on the receiving side of the connection model, resets, a new context after a stream that ended, RSV1 placement, parameter parsing); an independent RFC 7692 peer built on plain zlib objects against the real client for all 256 parameter combinations. Partial: DEFLATE itself is not verified.",
          "Coq proof of the bookkeeping with zlib as a Section-variable oracle + differential testing against an independent RFC 7692 peer"),
- "C10": ("Theorems on the model's request builder and reply decision (Ready iff 101, Upgrade: websocket and matching accept; rendering-independence); requests parsed by a strict parser, replies rendered from intent in every spelling, judged with hashlib. The case-insensitive accept comparison is a known finding (KF-D). Partial: SHA-1/base64 are outside the model.",
-         "Coq proof over the response-parser model + correspondence; known finding KF-D"),
+ "C10": ("Theorems on the model's URL reading (parse/render round trip: request target and Host header are functions of the URL's components), request builder and reply decision (Ready iff 101, Upgrade: websocket and matching accept; rendering-independence), and at run level: a Ready event implies a reply carrying base64(sha1(base64(random 16 bytes) ++ GUID)) of this attempt, with SHA-1 and base64 executable inside the model (base64 round trip, lengths, header-safe alphabet proved) and compared with hashlib/base64 and the real object on every run; requests parsed by a strict parser, replies rendered from intent in every spelling. The case-insensitive accept comparison is a known finding (KF-D). Partial: nothing is claimed about SHA-1 as a hash function.",
+         "Coq proof over the URL, digest and response-parser model + correspondence; known finding KF-D"),
  "C11": ("Theorems on the action-level concurrency model for all schedules (whole frames, per-thread order, compression order = wire order); the real methods on real threads under a deterministic scheduler, all schedules up to a preemption bound, compared action-by-action with the model.",
          "Coq proof over all schedules of the action-level model + systematic schedule enumeration of the real code"),
  "C12": ("Theorems on the same concurrency model (at most one Close frame, no data frame after it, losers fail); exhaustive schedule enumeration of close() against sends, closes and server-Close processing on the real code.",
@@ -40,7 +40,7 @@ CHECKS = {
          "regenerated inventory obligation + differential testing (second connection vs fresh object)"),
  "C18": ("No-stall theorem on the transport model (the loop blocks only when the TLS pending buffer and the kernel queue are both empty; everything available is handed to feed before blocking); the real loop and the real SelectorBase.wait over a simulated kernel/TLS layer on a virtual clock, plus real loopback TCP and TLS runs. Partial: kernel and TLS are modelled.",
          "Coq proof over the transport model + virtual-clock correspondence + real-socket tests"),
- "C19": ("Theorems on the proxy negotiation model (reuses the parser segmentation lemma): only a complete 200 header block yields a tunnel, and in the whole attempt the upgrade request is written only over an established tunnel; the real _connect/_connect_proxy against a fake socket module with every reply kind, URL shape and segmentation; all socket operations logged.",
+ "C19": ("Theorems on the proxy negotiation model (reuses the parser segmentation lemma): only a complete 200 header block yields a tunnel, in the whole attempt the upgrade request is written only over an established tunnel, and the proxy's address, TLS flag and Basic credentials are functions of the proxy URL's components (URL model, base64 round trip); the real _connect/_connect_proxy against a fake socket module with every reply kind, URL shape and segmentation; all socket operations logged.",
          "Coq proof over the proxy parser model + correspondence on logged socket operations"),
  "C16": ("Theorem on the persist model for every outcome sequence, draw and exit script; real persist() over scripted connections with exact rational comparison of delays.",
          "Coq proof by induction over the outcome list + exact-fraction correspondence"),
